@@ -37,6 +37,12 @@ CHECKS = {
         note="Trusted: z3, CPython, rsx, the model file system (POSIX semantics for the calls rope makes; validated by replaying every counterexample on the real file system). Single fault, raised before the primitive takes effect. RemoveResource.undo is unimplemented in rope (documented TODO): listed as a known finding. Two genuine defects found here were fixed in /repo (see known_findings.json).",
         design="§5 C10",
     ),
+    "C18": dict(
+        level="other",
+        text="Solver-decided over crash points: the real Project.close() save sequence (write hooks of History and MemoryDB, _DataFiles.write_data) runs on the model file system and the process dies at the k-th file-system write event, k a z3 integer over every event of the sequence; pickle (a C boundary) is a stub whose behaviour on a partial stream is a solver-chosen exception from the documented set; then the real Project.__init__, History._load_history, _DataFiles.read_data, MemoryDB._load_files, get_pymodule and analyze_module run on what is on disk. All (crash point, exception kind) combinations are enumerated by the solver; none may raise and the loaded history must be the old, the new or an empty list. Counterexamples are replayed with real files and real pickle, truncating at every byte offset.",
+        note="Trusted: z3, CPython, rsx.mfs, the pickle stub (its exception set is validated against real truncation of real data files at every byte offset on each run, recorded in the evidence). Process death only (no reordering of completed writes). The autoimport data files are outside the claim. One genuine defect found here was fixed in /repo.",
+        design="§5 C18",
+    ),
 }
 
 NOT_YET = "check not built yet (see DESIGN.md §5 for the planned decision procedure)"
